@@ -25,7 +25,7 @@ from ..kgen import Cfg, L, Program, S
 ID = "C06"
 LEVEL = "exploration"
 RULE = (
-    "programs = type{int,hex,float} x range{none,lit,lit-if-C,sym-bounds} x default{fallback,none,symbol,out-of-range} x "
+    "programs = type{int,hex,float} x range{none,lit,lit-containing-0,lit-if-C,sym-bounds} x default{fallback,none,symbol,out-of-range} x "
     "indirect{none,set,set-out-of-range,set-default,set-default-out-of-range} x prompt{plain,if V}; inputs = per-type alphabet incl. malformed classes x "
     "route{set_value, sdkconfig line, server handle_set} x all values of C,V,LO,D; distinct_nontrivial = distinct (program, "
     "input class, route, resulting value vector) where the input was malformed, out of range, or re-formatted."
@@ -57,7 +57,7 @@ HEX_RE = re.compile(r"(0[xX])?[0-9a-fA-F]+\Z")
 def programs(tier: str) -> Iterator[Dict[str, Any]]:
     for t in ("int", "hex", "float"):
         lit = LIT[t]
-        for rng, dfl, ind, pc in itertools.product(("none", "lit", "cond", "sym"), ("fb", "none", "sym", "oor"), ("none", "set", "setoor", "wset", "wsetoor"), (False, True)):
+        for rng, dfl, ind, pc in itertools.product(("none", "lit", "zero", "cond", "sym"), ("fb", "none", "sym", "oor"), ("none", "set", "setoor", "wset", "wsetoor"), (False, True)):
             if tier == "quick" and pc and (rng == "sym" or dfl == "sym"):
                 continue
             T = Cfg("T", t, prompt="t")
@@ -69,6 +69,8 @@ def programs(tier: str) -> Iterator[Dict[str, Any]]:
                 dom["V"] = [None, "n"]
             if rng == "lit":
                 T.ranges.append((L(lit["lo"]), L(lit["hi"]), None))
+            elif rng == "zero":  # a range that contains 0 (the numeric value assumed when nothing has been parsed yet)
+                T.ranges.append((L({"int": "-5", "hex": "0x0", "float": "-1.0"}[t]), L({"int": "5", "hex": "0x1f", "float": "1.0"}[t]), None))
             elif rng == "cond":
                 T.ranges.append((L(lit["lo"]), L(lit["hi"]), S("C")))
                 aux["C"] = Cfg("C", "bool", prompt="c")
